@@ -1,4 +1,5 @@
 import PcfgVerif.Properties.OmenTrainCore
+import PcfgVerif.Generated.OmenFacts
 import PcfgVerif.Lemmas.OmenFilesD
 import PcfgVerif.Lemmas.OmenCountLemmas
 import PcfgVerif.Lemmas.OmenScorerFilesLemmas
@@ -108,6 +109,27 @@ theorem C11_trained (lvl : Nat → Nat → Nat → Nat) (alphabetSize ngram minL
   refine ⟨fun s => C11_scorer_from_files t hwf s, ?_⟩
   obtain ⟨tb, h1, _, h3⟩ := C11_guesser_from_files t hwf target
   exact ⟨tb, h1, h3⟩
+
+/-- **the clamp of `_calc_level`, regenerated from the source**: after taking the floor of the logarithm the function ends with
+`if level > max_level: level = max_level elif level < 0: level = 0; return level`, `max_level` defaulting to 10 - so whatever the
+logarithm and the floor return (they do not reduce in the kernel), the level is within `0..10` (`lvlOf raw 10`) -/
+theorem C11_calc_level_clamps :
+    Generated.OmenFacts.calcLevelTail = ["if level > max_level: level = max_level elif level < 0: level = 0", "return level"] ∧
+    Generated.OmenFacts.calcLevelMaxDefault = "10" ∧
+    ∀ (raw : Nat → Nat → Nat → Int) (a b c : Nat), lvlOf raw 10 a b c ≤ 10 :=
+  ⟨by decide, by decide, fun raw a b c => lvlOf_le raw 10 a b c⟩
+
+/-- `C11_trained` for **every** value the logarithm could return: no hypothesis at all besides the n-gram size ≥ 2 -/
+theorem C11_trained_any_smoothing (raw : Nat → Nat → Nat → Int) (alphabetSize ngram minLength maxLength : Nat)
+    (hn : 2 ≤ ngram) (pws : List Str) (target : Nat) :
+    let t := trainTTables (lvlOf raw 10) alphabetSize ngram minLength maxLength 10 pws
+    (∀ s, (loadScorer t.ipLines t.cpLines t.lnLines).parse s = t.trainerLevel s) ∧
+    ∃ tb, t.loadTables = some tb ∧
+      ∀ s0, tb.start = some s0 →
+        ∃ N, (∀ fuel, N ≤ fuel → tb.enumFrom target fuel s0 = tb.enumFrom target N s0) ∧
+          (tb.enumFrom target N s0).Nodup ∧
+          ∀ s : Str, s ∈ tb.enumFrom target N s0 ↔ t.trainerLevel s = some target :=
+  C11_trained (lvlOf raw 10) alphabetSize ngram minLength maxLength 10 hn (lvlOf_le raw 10) pws target
 
 /-- non-vacuity (kernel-evaluated; the alphabet is given, its sorting does not reduce in the kernel): three passwords over `a`, `b`,
 bigrams, a level function that is not constant -/
